@@ -278,7 +278,7 @@ def per_iteration_for(I, ctl, node, env, it, k, spec):
                     c.check_obligation(f"{qn}::loop{k}.each.exc.undeclared:{exc_class(raised).__name__}", False)
                     raise PathEnd()
             fx_iter = list(c.fx[mark:])
-            b = _inv_bindings(I, ctl, env, {"fx": fx_iter, "raised": raised, "_index": idx})
+            b = _inv_bindings(I, ctl, env, {"fx": fx_iter, "raised": raised, "_index": idx, "_item": item})
             for cid, lam in spec.each:
                 f = eval_clause(I, lam, _select(lam, b), old_view=ctl.old_view())
                 c.check_obligation(f"{qn}::loop{k}.each.{cid}", f)
@@ -337,7 +337,7 @@ def async_for(I, ctl, node, env, k, spec):
         broke = True
     except ContinueSig:
         pass
-    b = _inv_bindings(I, ctl, env, {"fx": list(c.fx[mark:]), "broke": broke, "item": item})
+    b = _inv_bindings(I, ctl, env, {"fx": list(c.fx[mark:]), "broke": broke, "item": item, "_item": item})
     for cid, lam in spec.each:
         f = eval_clause(I, lam, _select(lam, b), old_view=head_view)
         c.check_obligation(f"{qn}::loop{k}.each.{cid}", f)
